@@ -82,6 +82,7 @@ class MemObjectStore(object):
     def list_messages(self):
         self._y()
         for i in list(self.objs):
+            self._y()      # aws.py fetches the metadata of every key with its own request
             if i in self.objs:
                 yield (self._meta(self.objs[i])['timestamp'], i)
 
